@@ -13,6 +13,8 @@ typedef vec_t<double, 3> V3;
 typedef LinearSpace3<V3> L3;
 typedef AffineSpaceT<L3> A3;
 typedef QuaternionT<double> Q;
+typedef vec_t<double, 2> V2;
+typedef LinearSpace2<V2> L2;
 struct In {
   const std::vector<double> &x;
   size_t p;
@@ -42,6 +44,12 @@ static bool dispatch(const std::string &n, In in, Out &o)
   else if (n == "d_q_normalize") { Q a = in.q(); o.q(normalize(a)); }
   else if (n == "d_q_rcp") { Q a = in.q(); o.q(rcp(a)); }
   else if (n == "d_q_from_ypr") { double y = in.s(), p = in.s(), r = in.s(); o.q(Q(y, p, r)); }
+  else if (n == "d_l2_orthogonal") {   // Newton iteration with a loop: outside the translator's subset
+    double a = in.s(), b = in.s(), c = in.s(), d = in.s();
+    L2 m(V2(a, b), V2(c, d));
+    L2 r = m.orthogonal();
+    o.s(r.vx.x); o.s(r.vx.y); o.s(r.vy.x); o.s(r.vy.y);
+  }
   else if (n == "d_l3_inverse") { L3 m = in.l(); o.l(m.inverse()); }
   else if (n == "d_l3_det") { L3 m = in.l(); o.s(m.det()); }
   else if (n == "d_l3_mul") { L3 a = in.l(), b = in.l(); o.l(a * b); }
